@@ -5,6 +5,7 @@ import (
 	"errors"
 	"fmt"
 	"strings"
+	"unicode/utf8"
 
 	"github.com/wollac/iota-crypto-demo/pkg/bech32/internal/base32"
 )
@@ -69,6 +70,13 @@ func Decode(s string) (string, []byte, error) {
 		return "", nil, &SyntaxError{fmt.Errorf("%w: maximum length exceeded", ErrInvalidLength), maxStringLength}
 	}
 	// validate the separator
+	// only US-ASCII characters are allowed; checking this before any case folding also keeps
+	// Unicode characters that fold to ASCII letters (e.g. U+212A KELVIN SIGN) out
+	for i := 0; i < len(s); i++ {
+		if s[i] >= utf8.RuneSelf {
+			return "", nil, &SyntaxError{fmt.Errorf("%w: not US-ASCII character", ErrInvalidCharacter), i}
+		}
+	}
 	hrpLen := strings.LastIndex(s, string(separator))
 	if hrpLen == -1 {
 		return "", nil, ErrMissingSeparator
